@@ -17,8 +17,10 @@ Stands(n, m) == IF n.cyc THEN n.den = m ELSE (n.t = m \/ n.u = m)
 NoDup(e) == \A i, j \in 1..Len(e.nodes) : i # j =>
               <<e.nodes[i].t, e.nodes[i].u, e.nodes[i].var, e.nodes[i].cyc>> # <<e.nodes[j].t, e.nodes[j].u, e.nodes[j].var, e.nodes[j].cyc>>
 RootLast(e) == Len(e.nodes) > 0 /\ (e.nodes[Len(e.nodes)].t = e.root \/ e.nodes[Len(e.nodes)].u = e.rootu) /\ ~e.nodes[Len(e.nodes)].cyc
+\* su: the declared type unwrapped by the harness (NewType / alias / Final / ClassVar peeled with typing only)
 MembersFirst(e) == \A i \in 1..Len(e.nodes) : ~e.nodes[i].cyc =>
-                      \A m \in Mem(e, e.nodes[i].u) : \E j \in 1..(i - 1) : Stands(e.nodes[j], m)
+                      \A m \in Mem(e, e.nodes[i].su) \cup Mem(e, e.nodes[i].u) : \E j \in 1..(i - 1) : Stands(e.nodes[j], m)
+UnwrappedFully(e) == \A i \in 1..Len(e.nodes) : (~e.nodes[i].cyc /\ ~e.nodes[i].uref /\ ~e.nodes[i].ref) => e.nodes[i].u = e.nodes[i].su
 RefImpliesCyclic(e) == \A i \in 1..Len(e.nodes) : e.nodes[i].ref => e.nodes[i].cyc
 CyclicImpliesRevisit(e) == \A i \in 1..Len(e.nodes) : e.nodes[i].cyc =>
                              \/ e.nodes[i].den \in {e.root, e.rootu}
@@ -38,6 +40,7 @@ Clause(e) ==
   ELSE IF ~RefImpliesCyclic(e) THEN "RefImpliesCyclic"
   ELSE IF ~DeferredDenotesExactly(e) THEN "DeferredDenotesExactly"
   ELSE IF ~CyclicImpliesRevisit(e) THEN "CyclicImpliesRevisit"
+  ELSE IF ~UnwrappedFully(e) THEN "NodeCarriesUnwrappedType"
   ELSE IF ~MembersFirst(e) THEN "MembersFirst"
   ELSE IF ~StringAlias(e) THEN "StringAliasIsOneDeferredNode"
   ELSE IF ~EquivalentRoots(e) THEN "EquivalentRoots"
